@@ -2,7 +2,9 @@
 import math
 from fractions import Fraction as F
 
-REPO_SRCS = ["src/Utils/Probability.cpp", "src/MDP/Model.cpp", "src/MDP/SparseModel.cpp", "src/Seeder.cpp"]
+REPO_SRCS = ["src/Utils/Probability.cpp", "src/MDP/Model.cpp", "src/MDP/SparseModel.cpp", "src/Seeder.cpp",
+             "src/Factored/MDP/CooperativeModel.cpp", "src/Factored/Utils/BayesianNetwork.cpp", "src/Factored/Utils/Core.cpp",
+             "src/Factored/Utils/FactoredMatrix.cpp"]
 AXIOM_ALLOW = []
 ASAN_QUICK = True          # the sparse-row scan is a memory-safety clause: run every case under ASan+UBSan
 CASE_TIMEOUT = 10
@@ -294,6 +296,66 @@ def gen_sr(rng):
     return "sr %s %d %d %d %s %s %s %d %d %s" % (variant, S, A, O, flat(T), " ".join(R), flat(Ob), s, a, L([hx(u) for u in us]))
 
 
+FREQ_VARIANTS = ["dd.tab", "dd.nocheck", "dd.nocheck", "dd.copy", "ss.tab", "ss.nocheck", "ss.nocheck", "ss.copy", "sd.tab", "ds.tab"]
+
+
+def gen_sorfreq(rng):
+    """joint (s1,o) frequencies of sampleSOR under the model's own engines, for every constructor"""
+    variant = rng.choice(FREQ_VARIANTS)
+    S, A, O = rng.randint(2, 4), rng.randint(1, 2), rng.randint(2, 3)
+    rows = lambda n, k: [unit_dyadic(rng, n) for _ in range(k)]
+    T = rows(S, A * S)
+    R = [fq(F(rng.choice([-5, -1, 1, 2, 7]), 4)) for _ in range(S * A)]
+    Ob = rows(O, A * S)
+    flat = lambda rs: " ".join(fq(x) for row in rs for x in row)
+    return "sorfreq %s %d %d %d %s %s %s %d %d %d %d" % (variant, S, A, O, flat(T), " ".join(R), flat(Ob),
+                                                         rng.randrange(S), rng.randrange(A), 2048, rng.randrange(2 ** 31))
+
+
+def gen_coop(rng):
+    """CooperativeModel: S != A shapes, multi-agent action tags, reward bases with distinct entries"""
+    nF, nA = rng.randint(1, 3), rng.randint(2, 3)
+    S = [rng.choice([2, 3]) for _ in range(nF)]
+    A = [rng.choice([2, 3]) for _ in range(nA)]
+    if rng.random() < 0.8:
+        A[0] = 5 - S[0]                                # an early agent whose action count differs from the same-id feature
+    out = ["coop", L(list(map(str, S))), L(list(map(str, A)))]
+    for i in range(nF):
+        agents = sorted(rng.sample(range(nA), rng.randint(1, 2)))
+        npa = 1
+        for g in agents: npa *= A[g]
+        parents, rowsn = [], 0
+        for _ in range(npa):
+            ps = sorted(rng.sample(range(nF), rng.randint(1, min(2, nF))))
+            parents.append(ps)
+            k = 1
+            for f in ps: k *= S[f]
+            rowsn += k
+        vals = []
+        for _ in range(rowsn):
+            p = unit_dyadic(rng, S[i])
+            if rng.random() < 0.1:
+                p[max(range(S[i]), key=lambda j: p[j])] -= F(1, 2 ** 20)
+            vals += [fq(x) for x in p]
+        out += [L(list(map(str, agents))), str(npa)] + [L(list(map(str, ps))) for ps in parents] + [L(vals)]
+    nB = rng.randint(1, 3)
+    out.append(str(nB))
+    for b in range(nB):
+        tag = sorted(rng.sample(range(nF), rng.randint(1, min(2, nF))))
+        atag = sorted(rng.sample(range(nA), 2 if rng.random() < 0.75 else 1))
+        rws, cls = 1, 1
+        for f in tag: rws *= S[f]
+        for g in atag: cls *= A[g]
+        vals = [fq(F(1000 * b + 16 * r + c, 4)) for r in range(rws) for c in range(cls)]
+        out += [L(list(map(str, tag))), L(list(map(str, atag))), L(vals)]
+    s = [rng.randrange(x) for x in S]
+    a = [rng.randrange(x) if rng.random() < 0.3 else x - 1 for x in A]
+    pool = [0.0, TOP, 0.5, 0.25, 0.75, 1 - 2.0 ** -20]
+    us = [rng.choice(pool) if rng.random() < 0.5 else rng.randrange(2 ** 53) / 2.0 ** 53 for _ in range(3 * nF)]
+    out += [L(list(map(str, s))), L(list(map(str, a))), L([hx(u) for u in us])]
+    return " ".join(out)
+
+
 def gen(rng, tier):
     scale = {"quick": 1, "thorough": 6, "search": 3}[tier]
     out = []
@@ -304,5 +366,7 @@ def gen(rng, tier):
     for _ in range(60 * scale): out.append(gen_randp(rng))
     for _ in range(70 * scale): out.append(gen_proj(rng))
     for _ in range(90 * scale): out.append(gen_sr(rng))
+    for _ in range(40 * scale): out.append(gen_sorfreq(rng))
+    for _ in range(70 * scale): out.append(gen_coop(rng))
     rng.shuffle(out)
     return out
